@@ -5,7 +5,7 @@
    repairs are applied, all false = the tree as it is).  S : sem is an ARBITRARY semantics of leaf calls,
    primitive operations, truth tests and unpacking. *)
 From Coq Require Import List Bool Arith.
-From CyVerif Require Import Model.M_CCallMap Model.M_EvalOrder Proof.P_CCallMap Proof.P_EvalOrder Proof.P_EvalOrderCC.
+From CyVerif Require Import Model.M_CCallMap Model.M_EvalOrder Proof.P_CCallMap Proof.P_EvalOrder Proof.P_EvalOrderCC Proof.P_EvalOrderStmt.
 Import ListNotations.
 
 (* every expression of the modelled language (and/or jump threading, not, conditional expressions,
@@ -35,17 +35,46 @@ Theorem C20_gen_all_contexts : forall (S : sem) (F : flags) e, eok F e = true ->
 Proof. exact gen_correct. Qed.
 Print Assumptions C20_gen_all_contexts.
 
-(* statements.  FULL STATEMENT (not proved as a theorem; checked on the witnesses below and by the
-   correspondence run): for every statement s (cascaded / unpacking assignment, augmented assignment,
-   del) with repaired flags, run (gen_stmt s) has the trace, leaf sequence and final variables of
-   ref_stmt s.  Proved part: del statements. *)
-Theorem C20_stmt_trace_eq_partial : forall (S : sem) (F : flags) o es st, forallb (eok F) es = true ->
+(* statements: the code of gen_stmt started in any machine state runs to completion and has the event
+   trace, the leaf sequence and the final variables of the reference (CPython order) statement.
+   del statements: *)
+Theorem C20_del_trace_eq : forall (S : sem) (F : flags) o es st, forallb (eok F) es = true ->
   let '(code, _) := gen_stmt F (SDel o es) 0 in
   let r := ref_stmt S (mvars st) (SDel o es) in
   exists st', run S code st Normal = (st', Normal) /\
     mvars st' = svars r /\ trace st' = trace st ++ sev r /\ leaflog st' = leaflog st ++ slf r.
 Proof. exact del_correct. Qed.
-Print Assumptions C20_stmt_trace_eq_partial.
+Print Assumptions C20_del_trace_eq.
+
+(* (cascaded / unpacking) assignments  t1 = t2 = ... = rhs : right-hand side first, then the targets left
+   to right, the sub-expressions of every target (in the variable environment the earlier targets left)
+   before its store, the items of a tuple target after one unpacking of the value.
+   Hypotheses: the expressions are covered (eok); the parallel-assignment flattening of the tree as it is
+   does not apply (flattens = None, or the repair fx_cascade; the finding is refuted below); a value that
+   is a bare variable is not reassigned inside a tuple target (the compiler does not copy a simple
+   right-hand side: x, y = z = x hands the NEW x to z - documented assumption "leaves do not rebind"). *)
+Theorem C20_assign_trace_eq : forall (S : sem) (F : flags) ts rhs st,
+  eok F rhs = true -> forallb (target_ok F) ts = true ->
+  (let '(_, v, _) := gen F CVal rhs 0 in forallb (tsafe v) ts = true) ->
+  fx_cascade F = true \/ flattens ts rhs = None ->
+  let '(code, _) := gen_stmt F (SAssign ts rhs) 0 in
+  let r := ref_stmt S (mvars st) (SAssign ts rhs) in
+  exists st', run S code st Normal = (st', Normal) /\
+    mvars st' = svars r /\ trace st' = trace st ++ sev r /\ leaflog st' = leaflog st ++ slf r.
+Proof. exact assign_correct. Qed.
+Print Assumptions C20_assign_trace_eq.
+
+(* augmented assignments  x op= rhs,  b[i] op= rhs,  o.a op= rhs : object and index once (let-temps of
+   ExpandInplaceOperators), read, right-hand side, operation, store.  aug_ok: covered sub-expressions and,
+   for attribute targets, the repair fx_inplace (applied in the tree; the old behaviour is refuted below) *)
+Theorem C20_aug_trace_eq : forall (S : sem) (F : flags) lhs iop rhs st,
+  aug_ok F lhs rhs = true ->
+  let '(code, _) := gen_stmt F (SAug lhs iop rhs) 0 in
+  let r := ref_stmt S (mvars st) (SAug lhs iop rhs) in
+  exists st', run S code st Normal = (st', Normal) /\
+    mvars st' = svars r /\ trace st' = trace st ++ sev r /\ leaflog st' = leaflog st ++ slf r.
+Proof. exact aug_correct. Qed.
+Print Assumptions C20_aug_trace_eq.
 
 (* findings: with the tree as it is the property is refuted (witnesses replayed on the compiled code by
    props/C20.py), each repaired variant agrees with the reference on its witness *)
